@@ -84,6 +84,11 @@ def path_scenarios(quick):
     for ms, drops in ((4, ["0", "1"]), (1, ["1"])) if quick else ((4, ["0", "1"]), (1, ["1"]), (64, ["0", "1", "2"]), (4, ["0"])):
         n += 1
         out.append(path_scenario(vlib.seed() * 1000 + n, ms, {"s2c": {i: "drop" for i in drops}}))
+    # the datagrams that would carry the client's first Handshake packets are lost: the server stays unvalidated while
+    # further client datagrams (retransmitted Initial, 1-RTT) keep arriving
+    for ms, lost in ((4, range(2, 6)), (64, range(1, 8))) if quick else ((4, range(2, 6)), (64, range(1, 8)), (1, range(2, 12)), (64, range(2, 20))):
+        n += 1
+        out.append(path_scenario(vlib.seed() * 1000 + n, ms, {"c2s": {str(i): "drop" for i in lost}}))
     n += 1
     out.append(path_scenario(vlib.seed() * 1000 + n, 4, {}))
     if not quick:
